@@ -29,7 +29,7 @@ RULE = (
 SHARDS = {"quick": 16, "thorough": 16}
 TIMEOUT = {"quick": 400, "thorough": 5400}
 MIN_EVALS = {"quick": 1200, "thorough": 30000}
-CASES = {"quick": 30, "thorough": 800}
+CASES = {"quick": 30, "thorough": 2500}
 ASSUMPTIONS = [
     "white space ODF consumers ignore = what vf/oracles/odftext.py collapses inside paragraphs, and any white space in element-only content; base64 payloads are compared without white space",
     "flat XML is compared with the concatenation meta, settings, styles, content (the order odfdo documents)",
